@@ -194,6 +194,79 @@ func (x *Exec) verifyFunc(d *Decl, res *UnitResult) {
 	for _, k := range order {
 		x.verifyFuncPass(d, res, fd, fixedOf[k], groups[k], true)
 	}
+	x.verifyDerived(d, fd)
+}
+
+// verifyDerived: `derived` clauses follow from requires + ensures alone (fresh parameters and result, no body).
+func (x *Exec) verifyDerived(d *Decl, fd *ast.FuncDecl) {
+	has := false
+	for _, c := range d.Clauses {
+		if c.Kind == "derived" {
+			has = true
+		}
+	}
+	if !has {
+		return
+	}
+	pk := x.w.Pkgs[d.Pkg]
+	obj := pk.Info.Defs[fd.Name].(*types.Func)
+	sig := obj.Type().(*types.Signature)
+	x.frames = []*frame{{fn: fd, pkg: pk, decl: d}}
+	x.onlyPost = false
+	x.panicsIf = nil
+	st := newState()
+	var cargs []Value
+	bind := func(v *types.Var) {
+		if v.Name() == "" || v.Name() == "_" {
+			return
+		}
+		cargs = append(cargs, x.freshValue(v.Name(), v.Type(), 0, st, false))
+	}
+	if sig.Recv() != nil {
+		bind(sig.Recv())
+	}
+	for i := 0; i < sig.Params().Len(); i++ {
+		bind(sig.Params().At(i))
+	}
+	var rvals []Value
+	for i := 0; i < sig.Results().Len(); i++ {
+		v := x.freshValue("result", sig.Results().At(i).Type(), 0, st, false)
+		rvals = append(rvals, v)
+	}
+	var gvals []Value
+	for _, c := range d.Clauses {
+		if c.Kind == "ghost" {
+			switch c.SplitHi {
+			case "int":
+				gvals = append(gvals, IntV{freshVar("g_"+c.SplitLo, SInt)})
+			case "bool":
+				gvals = append(gvals, BoolV{freshVar("g_"+c.SplitLo, SBool)})
+			default:
+				gvals = append(gvals, FloatV{freshVar("g_"+c.SplitLo, SReal)})
+			}
+		}
+	}
+	for _, c := range d.Clauses {
+		switch c.Kind {
+		case "requires":
+			st.assume(x.evalClause(pk, c, cargs, st))
+		case "panics_iff":
+			st.assume(mkNot(x.evalClause(pk, c, cargs, st)))
+		}
+	}
+	all := append(append(append([]Value{}, cargs...), gvals...), rvals...)
+	for _, c := range d.Clauses {
+		if c.Kind == "ensures" {
+			st.assume(x.evalClause(pk, c, all, st))
+		}
+	}
+	for _, c := range d.Clauses {
+		if c.Kind == "derived" {
+			sm := x.specMode
+			x.oblige("derived", st, x.evalClause(pk, c, all, st), fd, "derived "+c.Text)
+			x.specMode = sm
+		}
+	}
 }
 
 func (x *Exec) verifyFuncPass(d *Decl, res *UnitResult, fd *ast.FuncDecl, fixed map[string]int64, ensures []*Clause, onlyPost bool) {
@@ -213,6 +286,27 @@ func (x *Exec) verifyFuncPass(d *Decl, res *UnitResult, fd *ast.FuncDecl, fixed 
 	}
 	st := newState()
 	var cargs []Value // clause args: named receiver + named params
+	type refParam struct {
+		name string
+		id   int
+		t    *types.Named
+	}
+	var refParams []refParam
+	x.noInvFor = map[*types.Named]bool{}
+	for _, td := range x.w.TypeInvs {
+		if td.Pkg != d.Pkg {
+			continue
+		}
+		for _, e := range td.Estab {
+			if e == d.Name {
+				if o := pk.Types.Scope().Lookup(td.Name); o != nil {
+					if n, ok := o.Type().(*types.Named); ok {
+						x.noInvFor[n] = true
+					}
+				}
+			}
+		}
+	}
 	bind := func(v *types.Var) {
 		if v.Name() == "" || v.Name() == "_" {
 			return
@@ -231,6 +325,7 @@ func (x *Exec) verifyFuncPass(d *Decl, res *UnitResult, fd *ast.FuncDecl, fixed 
 				st.setField(id, k, fv)
 			}
 			val = RefV{ID: id, T: s.T}
+			refParams = append(refParams, refParam{v.Name(), id, s.T})
 		}
 		st.vars[v] = val
 		cargs = append(cargs, val)
@@ -266,6 +361,7 @@ func (x *Exec) verifyFuncPass(d *Decl, res *UnitResult, fd *ast.FuncDecl, fixed 
 			x.usedLemmas[strings.TrimSpace(c.Text[:strings.Index(c.Text, "(")])] = true
 		}
 	}
+	x.noInvFor = map[*types.Named]bool{}
 	x.entry = st.clone()
 	entryArgs := x.frozenArgs(cargs, st)
 	if fd.Type.Results != nil {
@@ -341,6 +437,30 @@ func (x *Exec) verifyFuncPass(d *Decl, res *UnitResult, fd *ast.FuncDecl, fixed 
 			}
 		}
 		if !onlyPost {
+			// frame and shape of objects modified through pointer parameters
+			for _, rp := range refParams {
+				mod := map[string]bool{}
+				for _, mf := range d.Modifies {
+					if strings.HasPrefix(mf, rp.name+".") {
+						mod[strings.TrimPrefix(mf, rp.name+".")] = true
+					}
+				}
+				for _, fname := range sortedFieldNames(x.entry.heap[rp.id]) {
+					before := x.entry.heap[rp.id][fname]
+					after := rs.heap[rp.id][fname]
+					if mod[fname] {
+						x.checkShape(rp.t, fname, after, rs, fd)
+						continue
+					}
+					if !sameValue(before, after) {
+						eq, ok := x.tryEqual(before, after, rs)
+						if !ok {
+							eq = tFalse
+						}
+						x.oblige("frame", rs, eq, fd, "field "+rp.name+"."+fname+" is not in the modifies clause and keeps its value")
+					}
+				}
+			}
 			if x.panicsIf != nil {
 				x.oblige("panics_iff.ret", rs, mkNot(x.panicsIf), fd, "normal return only when the panic condition is false")
 				rs.assume(mkNot(x.panicsIf))
@@ -357,6 +477,9 @@ func (x *Exec) verifyFuncPass(d *Decl, res *UnitResult, fd *ast.FuncDecl, fixed 
 			}
 			if established {
 				if s, ok := r.v.(*StructV); ok {
+					for _, fname := range sortedFieldNames(s.F) {
+						x.checkShape(s.T, fname, s.F[fname], rs, fd)
+					}
 					tp := x.w.Pkgs[invDecl.Pkg]
 					for _, c := range invDecl.Clauses {
 						if c.Kind == "invariant" && c.FnName != "" {
@@ -663,4 +786,19 @@ func (w *World) checkEstablishedBy() []string {
 	}
 	sort.Strings(problems)
 	return problems
+}
+
+func (x *Exec) tryEqual(a, b Value, st *State) (t *Term, ok bool) {
+	defer func() {
+		if r := recover(); r != nil {
+			if _, isU := r.(unsupported); isU {
+				t, ok = nil, false
+				return
+			}
+			panic(r)
+		}
+	}()
+	x.specMode++
+	defer func() { x.specMode-- }()
+	return x.valuesEqual(a, b, st), true
 }
